@@ -1102,7 +1102,7 @@ class Parser:
         verbose: bool = False,
     ) -> ast.Module | None:
         """Parse a file or string."""
-        with open(path, encoding="utf-8") as f:  # source files are UTF-8 whatever the locale says
+        with open(path, encoding="utf-8-sig") as f:  # source files are UTF-8 (a signature is skipped) whatever the locale says
             tok_stream = generate_tokens(f.readline)
             tokenizer = Tokenizer(tok_stream, verbose=verbose, path=str(path))
             parser = cls(
